@@ -35,12 +35,30 @@ func verifTrustDigest(n int) digest.Digest {
 	return d
 }
 
-// verifChunked delivers data in pieces whose sizes are chosen by the harness.
+// verifChunked delivers data in pieces; the cut positions are chosen by the harness
+// when the source is created (at most maxCuts cuts).
 type verifChunked struct {
 	data   []byte
 	pos    int
 	closes int
 	yield  bool
+	cuts   []int // ascending positions at which a Read ends
+}
+
+func verifNewChunked(data []byte, maxCuts int) *verifChunked {
+	c := &verifChunked{data: data}
+	n := len(data)
+	last := 0
+	for k := 0; k < maxCuts && n-last >= 2; k++ {
+		// cut after `last+1+j` bytes, or stop cutting
+		j := vnd.Choose(n - last)
+		if j == 0 {
+			break
+		}
+		last += j
+		c.cuts = append(c.cuts, last)
+	}
+	return c
 }
 
 func (c *verifChunked) Read(p []byte) (int, error) {
@@ -50,7 +68,14 @@ func (c *verifChunked) Read(p []byte) (int, error) {
 	if c.pos >= len(c.data) {
 		return 0, io.EOF
 	}
-	n := 1 + vnd.Choose(len(c.data)-c.pos)
+	end := len(c.data)
+	for _, cut := range c.cuts {
+		if cut > c.pos {
+			end = cut
+			break
+		}
+	}
+	n := end - c.pos
 	if n > len(p) {
 		n = len(p)
 	}
@@ -117,18 +142,18 @@ func (verifPlainFactory) NewBufferFromReaderAt(d digest.Digest, r buffer.ReadAtC
 }
 
 type verifObject struct {
-	n      int
-	data   []byte
-	digest digest.Digest
-	writer BlockPutWriter
-	off    int64
-	err    error
-	src    *verifChunked
+	maxCuts int
+	n       int
+	data    []byte
+	digest  digest.Digest
+	writer  BlockPutWriter
+	off     int64
+	err     error
+	src     *verifChunked
 }
 
 func verifRunWriter(o *verifObject) {
-	o.src = &verifChunked{data: o.data}
+	o.src = verifNewChunked(o.data, o.maxCuts)
 	fin := o.writer(buffer.NewCASBufferFromReader(o.digest, o.src, buffer.UserProvided))
 	o.off, o.err = fin()
 }
-
